@@ -417,31 +417,40 @@ func (p *parser) validDirective(dir string) bool {
 // replaceEnvVars replaces environment variables that appear in the token
 // and understands both the $UNIX and %WINDOWS% syntaxes.
 func replaceEnvVars(s string) string {
-	s = replaceEnvReferences(s, "{%", "%}")
-	s = replaceEnvReferences(s, "{$", "}")
-	return s
-}
-
-// replaceEnvReferences performs the actual replacement of env variables
-// in s, given the placeholder start and placeholder end strings.
-func replaceEnvReferences(s, refStart, refEnd string) string {
-	index := strings.Index(s, refStart)
-	for index != -1 {
+	// The token is scanned once from left to right for both syntaxes;
+	// substituted values are never scanned again, so a value that itself
+	// contains a reference is inserted verbatim and cannot cause endless
+	// expansion.
+	syntaxes := [2][2]string{{"{%", "%}"}, {"{$", "}"}}
+	disabled := [2]bool{}
+	result := ""
+	for {
+		// find the leftmost reference start of a syntax still in use
+		which, index := -1, -1
+		for i, syn := range syntaxes {
+			if disabled[i] {
+				continue
+			}
+			if j := strings.Index(s, syn[0]); j != -1 && (index == -1 || j < index) {
+				which, index = i, j
+			}
+		}
+		if which == -1 {
+			return result + s
+		}
+		refStart, refEnd := syntaxes[which][0], syntaxes[which][1]
 		endIndex := strings.Index(s[index:], refEnd)
-		if endIndex == -1 {
-			break
+		if endIndex == -1 || endIndex <= len(refStart) {
+			// unterminated or empty reference: this syntax is not
+			// processed any further (the rest stays as written)
+			disabled[which] = true
+			continue
 		}
-
 		endIndex += index
-		if endIndex > index+len(refStart) {
-			ref := s[index : endIndex+len(refEnd)]
-			s = strings.Replace(s, ref, os.Getenv(ref[len(refStart):len(ref)-len(refEnd)]), -1)
-		} else {
-			return s
-		}
-		index = strings.Index(s, refStart)
+		name := s[index+len(refStart) : endIndex]
+		result += s[:index] + os.Getenv(name)
+		s = s[endIndex+len(refEnd):]
 	}
-	return s
 }
 
 // ServerBlock associates any number of keys (usually addresses
